@@ -29,6 +29,7 @@ import (
 	"google.golang.org/grpc/connectivity"
 	"google.golang.org/grpc/grpclog"
 	"google.golang.org/grpc/resolver"
+	"google.golang.org/grpc/serviceconfig"
 	"google.golang.org/grpc/status"
 )
 
@@ -68,7 +69,14 @@ func (c *simConn) String() string { return fmt.Sprintf("sc%d", c.id) }
 func simAddrStr(a []resolver.Address) string {
 	s := []string{}
 	for _, x := range a {
-		s = append(s, x.Addr)
+		e := x.Addr
+		if x.ServerName != "" {
+			e += "/" + x.ServerName
+		}
+		if x.Type != 0 {
+			e += fmt.Sprintf("/type%d", x.Type)
+		}
+		s = append(s, e)
 	}
 	return strings.Join(s, ",")
 }
@@ -623,6 +631,16 @@ func (s *sim) resolve(empty bool, cfg *pb.ApiConfig, withCfg bool) {
 	if !empty {
 		s.addrV++
 		addrs = []resolver.Address{{Addr: fmt.Sprintf("v%d", s.addrV)}}
+		switch s.rng.Intn(8) {
+		case 0:
+			// two entries with the same host:port that differ in the server name only
+			addrs = append(addrs, resolver.Address{Addr: addrs[0].Addr, ServerName: "alt.example"})
+		case 1:
+			// an entry of the (deprecated but legal) balancer type next to a backend
+			addrs = append(addrs, resolver.Address{Addr: fmt.Sprintf("lb%d", s.addrV), Type: resolver.GRPCLB})
+		case 2:
+			addrs[0].ServerName = fmt.Sprintf("sn%d.example", s.addrV)
+		}
 	}
 	newAddrs := simAddrStr(addrs)
 	s.say("resolve [%s]%s", newAddrs, map[bool]string{true: " +config", false: ""}[withCfg])
@@ -871,6 +889,14 @@ func (s *sim) report(c *simConn, st connectivity.State) {
 	}
 	if swap != nil {
 		s.hit("C07.swap")
+		if s.prop == "C03" {
+			for _, r := range s.rmInOp {
+				if r != swapOld {
+					// C03: the balancer never removes a connection other than the old connection of a completed refresh
+					s.fail("C03.remove", "not-the-old-connection", "when the replacement of channel %d reported READY the balancer removed %v, which is not the old connection %v", swap.id, r, swapOld)
+				}
+			}
+		}
 		if len(s.rmInOp) != 1 || s.rmInOp[0] != swapOld || swapOld.removed != 1 {
 			s.fail("C07.swap-remove", "", "refresh of channel %d completed: removed %v (old conn %v removed %d times), want exactly the old connection once", swap.id, s.rmInOp, swapOld, swapOld.removed)
 		}
@@ -1336,6 +1362,10 @@ func (s *sim) finishWaiter(w *simWaiter, why string) {
 	st := w.op.awaitDone(2 * time.Second)
 	s.hit("C09.waiter-released")
 	if st != vDone {
+		if s.prop == "C06" {
+			// C06: a round-robin BIND pick returns promptly once its channel is READY or its context ended
+			s.fail("C06.waiter-not-released", strings.Replace(why, " ", "-", -1), "round-robin BIND still waiting (%s, goroutine %q) after: %s", st, w.op.state, why)
+		}
 		s.fail("C09.waiter-stuck", strings.Replace(why, " ", "-", -1), "round-robin BIND still waiting (%s, goroutine %q) after: %s", st, w.op.state, why)
 		s.dead = true
 		return
@@ -1876,6 +1906,27 @@ func simRunCase(env vEnv, out *vOut, idx int64) *sim {
 		}
 	}
 
+	if s.hostile && rng.Chance(10) {
+		// calls that arrive before the balancer has a configuration
+		s.hit("C05.before-config")
+		if rng.Bool() {
+			s.say("resolver update with a foreign balancer config (rejected)")
+			h, st := s.exec(func() {
+				s.b.UpdateClientConnState(balancer.ClientConnState{ResolverState: resolver.State{Addresses: []resolver.Address{{Addr: "v0"}}}, BalancerConfig: simForeignConfig{}})
+			})
+			if !s.completed(h, st, "resolver update with a foreign config") {
+				return s
+			}
+		}
+		s.say("state report for an unknown connection before any configuration")
+		h, st := s.exec(func() {
+			s.b.UpdateSubConnState(&simConn{id: -1, sim: s, fake: true}, balancer.SubConnState{ConnectivityState: []connectivity.State{connectivity.Ready, connectivity.Idle, connectivity.TransientFailure, connectivity.Shutdown}[rng.Intn(4)]})
+		})
+		if !s.completed(h, st, "state report before configuration") {
+			return s
+		}
+		s.newInOp, s.rmInOp, s.pubInOp, s.boundary = nil, nil, 0, 0
+	}
 	if (s.prop == "C20" || s.hostile) && rng.Chance(8) {
 		// a resolver error that arrives before the first resolver update (no configuration yet)
 		s.hit("C20.resolver-error-before-first-update")
@@ -2779,6 +2830,11 @@ func (s *sim) macroUnbindAcrossShutdown() bool {
 		return true
 	}
 	return false
+}
+
+// simForeignConfig is a balancer config of another balancer's type.
+type simForeignConfig struct {
+	serviceconfig.LoadBalancingConfig
 }
 
 // simSetCursor presets the balancer's round-robin cursor through reflection so
